@@ -272,12 +272,24 @@ class Generator:
                         if not m:
                             raise GenError(f'unsupported: RCALL shape at {meth}')
                         args = rest[m.end():-1].strip()
-                        rep = f'{func}({recv}{", " + args if args else ""})'
+                        turbo = m.group(1) or ''
+                        rep = f'{func}{turbo}({recv}{", " + args if args else ""})'
                         add_edit(c['span'][0], c['span'][1], rep, 'RCALL')
                         n += 1
                 if n == 0:
                     raise GenError(f'lost-anchor: RCALL site {rw[2]}.{meth} not found in {u.fnpath}')
                 applied.append(f'RCALL {rw[2]}.{meth} -> {func} x{n}')
+            elif kind == 'RXPR':
+                # whole method-call expression (e.g. an iterator-adapter chain) whose normalised text equals rw[1] -> replacement text
+                want, rep = normtok(rw[1]), rw[2]
+                n = 0
+                for c in fn['calls']:
+                    if inside(c['span'], span) and normtok(src[c['span'][0]:c['span'][1]].decode()) == want:
+                        add_edit(c['span'][0], c['span'][1], rep, 'RXPR')
+                        n += 1
+                if n == 0:
+                    raise GenError(f'lost-anchor: RXPR expression "{rw[1]}" not found in {u.fnpath}')
+                applied.append(f'RXPR "{rw[1]}" -> "{rep}" x{n}')
             elif kind == 'RPCALL':
                 # path call `a::b(args)` -> `helper(args)` (callee path replaced, arguments verbatim)
                 want, func = normtok(rw[1]), rw[2]
